@@ -45,6 +45,55 @@ pub proof fn lemma_take_name_lit(lit: Seq<char>, r: Seq<char>)
         assert(seq![lit[0]] + lit2 =~= lit);
     }
 }
+pub proof fn lemma_long_bind(r: Seq<char>, ext: bool)
+    requires r.len() == 0 || !name_char(r[0])
+    ensures lex_one("\\bind"@ + r, ext) == lex_one("!"@ + r, ext)
+{
+    broadcast use axiom_alnum_ascii;
+    reveal_strlit("\\bind"); reveal_strlit("bind"); reveal_strlit("!"); reveal_strlit("exists"); reveal_strlit("forall");
+    assert(("\\bind"@ + r).drop_first() =~= "bind"@ + r);
+    lemma_take_name_lit("bind"@, r);
+    assert(("!"@ + r).drop_first() =~= r);
+    assert(("\\bind"@ + r)[0] == '\\' && ("!"@ + r)[0] == '!');
+    assert("bind"@ != "exists"@ && "bind"@ != "forall"@) by { assert("bind"@.len() == 4 && "exists"@.len() == 6 && "forall"@.len() == 6); }
+}
+pub proof fn lemma_long_jump(r: Seq<char>, ext: bool)
+    requires r.len() == 0 || !name_char(r[0])
+    ensures lex_one("\\jump"@ + r, ext) == lex_one("@"@ + r, ext)
+{
+    broadcast use axiom_alnum_ascii;
+    reveal_strlit("\\jump"); reveal_strlit("jump"); reveal_strlit("@"); reveal_strlit("exists"); reveal_strlit("forall"); reveal_strlit("bind");
+    assert(("\\jump"@ + r).drop_first() =~= "jump"@ + r);
+    lemma_take_name_lit("jump"@, r);
+    assert(("@"@ + r).drop_first() =~= r);
+    assert(("\\jump"@ + r)[0] == '\\' && ("@"@ + r)[0] == '@');
+    assert("jump"@ != "exists"@ && "jump"@ != "forall"@) by { assert("jump"@.len() == 4 && "exists"@.len() == 6 && "forall"@.len() == 6); }
+    assert("jump"@ != "bind"@) by { assert("jump"@[0] == 'j' && "bind"@[0] == 'b'); }
+}
+pub proof fn lemma_long_exists(r: Seq<char>, ext: bool)
+    requires r.len() == 0 || !name_char(r[0])
+    ensures lex_one("\\exists"@ + r, ext) == lex_one("3"@ + r, ext)
+{
+    broadcast use axiom_alnum_ascii;
+    reveal_strlit("\\exists"); reveal_strlit("exists"); reveal_strlit("3");
+    assert(("\\exists"@ + r).drop_first() =~= "exists"@ + r);
+    lemma_take_name_lit("exists"@, r);
+    lemma_take_name_lit("3"@, r);
+    assert(("\\exists"@ + r)[0] == '\\' && ("3"@ + r)[0] == '3');
+}
+pub proof fn lemma_long_forall(r: Seq<char>, ext: bool)
+    requires r.len() == 0 || !name_char(r[0])
+    ensures lex_one("\\forall"@ + r, ext) == lex_one("V"@ + r, ext)
+{
+    broadcast use axiom_alnum_ascii;
+    reveal_strlit("\\forall"); reveal_strlit("forall"); reveal_strlit("V"); reveal_strlit("exists"); reveal_strlit("3");
+    assert(("\\forall"@ + r).drop_first() =~= "forall"@ + r);
+    lemma_take_name_lit("forall"@, r);
+    lemma_take_name_lit("V"@, r);
+    assert(("\\forall"@ + r)[0] == '\\' && ("V"@ + r)[0] == 'V');
+    assert("forall"@ != "exists"@) by { assert("forall"@[0] == 'f' && "exists"@[0] == 'e'); }
+    assert("V"@ != "3"@) by { assert("V"@[0] == 'V' && "3"@[0] == '3'); }
+}
 pub proof fn lemma_long_spellings(r: Seq<char>, ext: bool)
     requires r.len() == 0 || !name_char(r[0])
     ensures
@@ -53,22 +102,7 @@ pub proof fn lemma_long_spellings(r: Seq<char>, ext: bool)
         lex_one("\\exists"@ + r, ext) == lex_one("3"@ + r, ext),
         lex_one("\\forall"@ + r, ext) == lex_one("V"@ + r, ext),
 {
-    broadcast use axiom_alnum_ascii;
-    reveal_strlit("\\bind"); reveal_strlit("\\jump"); reveal_strlit("\\exists"); reveal_strlit("\\forall");
-    reveal_strlit("bind"); reveal_strlit("jump"); reveal_strlit("exists"); reveal_strlit("forall");
-    reveal_strlit("!"); reveal_strlit("@"); reveal_strlit("3"); reveal_strlit("V");
-    lemma_strlits();
-    // "\name" + r : the name after the backslash is a maximal run
-    assert(("\\bind"@ + r).drop_first() =~= "bind"@ + r);
-    assert(("\\jump"@ + r).drop_first() =~= "jump"@ + r);
-    assert(("\\exists"@ + r).drop_first() =~= "exists"@ + r);
-    assert(("\\forall"@ + r).drop_first() =~= "forall"@ + r);
-    lemma_take_name_lit("bind"@, r); lemma_take_name_lit("jump"@, r); lemma_take_name_lit("exists"@, r); lemma_take_name_lit("forall"@, r);
-    assert(("!"@ + r).drop_first() =~= r);
-    assert(("@"@ + r).drop_first() =~= r);
-    lemma_take_name_lit("3"@, r); lemma_take_name_lit("V"@, r);
-    assert(("\\bind"@ + r)[0] == '\\' && ("\\jump"@ + r)[0] == '\\' && ("\\exists"@ + r)[0] == '\\' && ("\\forall"@ + r)[0] == '\\');
-    assert(("!"@ + r)[0] == '!' && ("@"@ + r)[0] == '@' && ("3"@ + r)[0] == '3' && ("V"@ + r)[0] == 'V');
+    lemma_long_bind(r, ext); lemma_long_jump(r, ext); lemma_long_exists(r, ext); lemma_long_forall(r, ext);
 }
 // (3) alternative spellings of the constants
 pub proof fn lemma_constant_spellings(a: Atomic, b: Atomic)
